@@ -126,6 +126,12 @@ type userID int
 type userDur int64
 type userLevel uint8
 
+// defined types over the basic kinds (type Colour string and friends): ordinary Go values, carried by their kind
+type colour string
+type weight float64
+type onoff bool
+type serial int64
+
 // embedded structs: promoted fields through an exported embedded type and through a pointer to an unexported one
 type Base struct {
 	ID    int
@@ -477,6 +483,17 @@ func fixtureByID(id string) (stick.Value, error) {
 				m[e[0]] = e[1]
 			}
 			return m, nil
+		case "cs":
+			m := map[colour]int{}
+			for _, e := range kv() {
+				n, _ := strconv.Atoi(e[1])
+				m[colour(e[0])] = n
+			}
+			return m, nil
+		case "self":
+			m := map[string]interface{}{}
+			m["me"] = m
+			return m, nil
 		case "mixed":
 			return map[interface{}]string{1: "int", "1": "str", "true": "strtrue", true: "bool"}, nil
 		case "nilss":
@@ -542,6 +559,27 @@ func fixtureByID(id string) (stick.Value, error) {
 			in = customSafe{in}
 		}
 		return in, nil
+	case "unhash":
+		// comparable by type, unhashable by content
+		return struct{ X interface{} }{[]int{1}}, nil
+	case "named":
+		switch arg(1) {
+		case "int64":
+			n, _ := strconv.ParseInt(arg(2), 10, 64)
+			return serial(n), nil
+		case "float64":
+			f, _ := strconv.ParseFloat(arg(2), 64)
+			return weight(f), nil
+		case "string":
+			return colour(arg(2)), nil
+		case "bool":
+			return onoff(arg(2) == "t"), nil
+		case "uintptr":
+			n, _ := strconv.ParseUint(arg(2), 10, 64)
+			return uintptr(n), nil
+		}
+	case "nilptrsafe":
+		return (*customSafe)(nil), nil
 	case "chan":
 		return make(chan int), nil
 	case "func":
